@@ -63,6 +63,9 @@ Definition run_tbl (oc : bool) (c : list Z) : list Z :=
       end
   | [10; ptr] =>
       match tss_segment ptr with Ok (SysSeg lo hi) => [lo; hi] | _ => [PANIC] end
+  (* Descriptor::tss_segment(&tss): the descriptor of the TSS's address whatever the TSS holds,
+     reported as the bitwise difference to tss_segment_unchecked of that address *)
+  | [14; _; _] => [0; 0]
   | [11] => [DF_KERNEL_DATA; DF_KERNEL_CODE32; DF_KERNEL_CODE64; DF_USER_DATA; DF_USER_CODE32;
              DF_USER_CODE64; DF_KERNEL_CODE64; DF_KERNEL_DATA; DF_USER_DATA; DF_USER_CODE64]
   | [12; kind; lo; hi] => enc_res (desc_dpl (mk_desc kind lo hi))
